@@ -52,12 +52,22 @@ def parse_opts(words):
 def name_return(sig):
     """`-> T` → `-> (ret: T)`; returns new token list"""
     depth = 0
+    ang = 0
+    seen_params = False
     for i, t in enumerate(sig):
         if t.text in "([":
             depth += 1
         elif t.text in ")]":
             depth -= 1
-        elif t.text == "->" and depth == 0:
+            if depth == 0 and ang == 0 and t.text == ")":
+                seen_params = True
+        elif t.text == "<" and depth == 0 and not seen_params:
+            ang += 1
+        elif t.text == ">" and depth == 0 and not seen_params and ang > 0:
+            ang -= 1
+        elif t.text == ">>" and depth == 0 and not seen_params and ang > 1:
+            ang -= 2
+        elif t.text == "->" and depth == 0 and ang == 0 and seen_params:
             j = len(sig)
             for k in range(i + 1, len(sig)):
                 if sig[k].text == "where" and sig[k].kind == "id":
@@ -84,6 +94,7 @@ class Gen:
         self.dropped = []     # what extraction dropped (struct fields, attrs)
         self.stub = False     # currently inside a stub-included unit
         self.stub_units = []  # units whose contracts are used here without re-proving them
+        self.skip = set()     # ADT names the including unit defines itself
 
     def cur_line(self):
         return len(self.lines) + 1
@@ -234,8 +245,8 @@ def gen_fn(g, header_words, block_lines):
     qual = pos[1]
     item = extract.find_fn(path, qual)
     sections = parse_fn_block(block_lines)
-    sig = list(item.sig)
-    body = list(item.body)
+    sig, _ = rw.rule_R5([Tok(t.kind, t.text, t.ws, t.line) for t in item.sig])
+    body, _ = rw.rule_R5([Tok(t.kind, t.text, t.ws, t.line) for t in item.body])
     shown = opts.get("as", qual)
     if "closure" in opts or "loopbody" in opts:
         # lift a closure literal / loop body into a named function; signature comes from the template
@@ -313,6 +324,7 @@ def gen_adt(g, kind, words):
             if keep is not None and nm not in keep:
                 dropped.append(nm)
                 continue
+            fl, _ = rw.rule_R5([Tok(t.kind, t.text, t.ws, t.line) for t in fl])
             txt = emit_trim(fl)
             if kind == "struct":
                 # visibility is erased (single-file crate): every field `pub`
@@ -403,6 +415,9 @@ def _gen_into(g, unit_name, seen):
             words = shlex.split(s[3:].strip(), posix=True)
             d = words[0]
             if d == "include":
+                for w in words[2:]:
+                    if w.startswith("skip="):
+                        g.skip |= set(w[5:].split(","))
                 if len(words) > 2 and words[2] == "stub" and not g.stub:
                     g.stub = words[1]
                     if words[1] not in g.stub_units:
@@ -412,7 +427,10 @@ def _gen_into(g, unit_name, seen):
                 else:
                     _gen_into(g, words[1], seen)
             elif d in ("struct", "enum"):
-                gen_adt(g, d, words[1:])
+                if words[2] in g.skip and (g.stub or unit_name != g.unit):
+                    pass
+                else:
+                    gen_adt(g, d, words[1:])
             elif d in ("const", "type"):
                 gen_const(g, words[1:])
             elif d == "fn":
